@@ -40,7 +40,7 @@ def run(tier, rep):
     framer_replay.replay_graph(rep, budget=6 if quick else 8, bundle=bundle)
 
     rnd = rng("c01")
-    pool = stream_corpus.payload_pool(bundle, "c01") + stream_corpus.special_payloads(bundle, rnd)
+    pool = stream_corpus.payload_pool(bundle, "c01") + stream_corpus.special_payloads(bundle, rnd) + stream_corpus.syncy_payloads(rnd, 20)
     tr = fe.Traces(rep)
     n = 30 if quick else 300
     for i in range(n):
